@@ -57,7 +57,8 @@ def instances(tier, seed):
         nets += [{'fam': 'T1', 'K': 4, 'd0': 2, 's': 1, 'C': 2}, {'fam': 'T1', 'K': 3, 'd0': 1, 's': 2, 'C': 2},
                  {'fam': 'A1', 'K': 2, 'C': 2}, {'fam': 'T2', 'K0': 3, 'K1': 2}, {'fam': 'K1', 'origins': ['s', 's']},
                  {'fam': 'D2', 'C': 2}, {'fam': 'L1'}, {'fam': 'R2'},
-                 {'fam': 'T1', 'K': 2, 'tail': 'relu'}, {'fam': 'T1', 'K': 2, 'tail': 'add'}]
+                 {'fam': 'T1', 'K': 2, 'tail': 'relu'}, {'fam': 'T1', 'K': 2, 'tail': 'add'},
+                 {'fam': 'O1', 'out': 'dict'}, {'fam': 'O1', 'out': 'nested'}, {'fam': 'O1', 'out': 'tuple'}, {'fam': 'R4'}]
     else:
         for K in range(1, 13):
             for d0 in (1, 2, 3):
@@ -75,7 +76,8 @@ def instances(tier, seed):
             for b in 'sfi':
                 nets.append({'fam': 'K1', 'origins': [a, b]})
         nets += [{'fam': 'K1', 'origins': ['s', 'f', 's']}, {'fam': 'K2'}, {'fam': 'D2', 'C': 3, 'pool': 'avg'},
-                 {'fam': 'D2', 'C': 2, 'pool': 'none', 'bn': False}, {'fam': 'R2'}, {'fam': 'R2', 'K': 3}]
+                 {'fam': 'D2', 'C': 2, 'pool': 'none', 'bn': False}, {'fam': 'R2'}, {'fam': 'R2', 'K': 3}, {'fam': 'R4'}]
+        nets += [{'fam': 'O1', 'out': o, 'C': C} for o in ('dict', 'nested', 'tuple', 'list') for C in (2, 3)]
     for spec in nets:
         out.append({'id': 'net:' + pitlib.prog_id(spec), 'kind': 'net', 'spec': spec})
     return out
@@ -112,7 +114,7 @@ def concrete_layer(K, C, values):
     return obs, viol
 
 
-def net_observe(pit, shape, zeros):
+def net_observe(pit, shape, zeros, orig_shapes=None):
     """the observation the property talks about, on whatever tensor type is active; returns (obs, violation)"""
     from plinio.methods.pit.nn.features_masker import PITFrozenFeaturesMasker
     obs = {}
@@ -165,16 +167,20 @@ def net_observe(pit, shape, zeros):
     except Exception as e:
         obs['run_exc'] = f'{type(e).__name__}: {e}'[:200]
         return obs, f'exported_run_raised:{type(e).__name__}'
-    obs['out_shape'] = list(y1.shape)
-    if tuple(y0.shape) != tuple(y1.shape):
+    obs['out_shape'] = [list(t) for t in pitlib.out_shapes(y1)]
+    if type(y0) is not type(y1) or pitlib.out_shapes(y0) != pitlib.out_shapes(y1):
         return obs, 'exported_output_shape_differs'
+    if orig_shapes is not None and pitlib.out_shapes(y1) != orig_shapes:
+        return obs, 'exported_output_shape!=original'
     return obs, None
 
 
 def concrete_net(spec, values, seed=0):
     pit, model, shape = pitlib.make_pit(spec, seed)
     pitlib.set_masks(pit, values)
-    return net_observe(pit, shape, torch.zeros(1, *shape))
+    with torch.no_grad():
+        orig = pitlib.out_shapes(model(torch.zeros(1, *shape)))
+    return net_observe(pit, shape, torch.zeros(1, *shape), orig)
 
 
 def replay(rec):
@@ -366,12 +372,14 @@ def _run_layer_fp32(res, K, C, selftest):
 
 def _run_net(res, spec, wseed, selftest):
     pit, model, shape = pitlib.make_pit(spec, wseed)
+    with torch.no_grad():
+        orig = pitlib.out_shapes(model(torch.zeros(1, *shape)))     # the user's network, untouched by the conversion (C07)
 
     def fn(ex):
         pairs, sy = pitlib.fresh_masks(pit)
         with SymMode(), swapped_params(pairs):
             zeros = torch.zeros(1, *shape)
-            obs, viol = net_observe(pit, shape, zeros)
+            obs, viol = net_observe(pit, shape, zeros, orig)
         return sy, obs, viol
     ex = Explorer(timeout_ms=60000)
     seen_viol = set()
